@@ -289,11 +289,62 @@ def check_from_utf8_unchecked(b, bb, t):
         return False, 'cannot resolve the sliced buffer'
     src_l = base['l']
     # must-dataflow: valid(src, err) holds at the valid_up_to call and is not killed up to the unsafe call
-    ok, why = _utf8_valid_flow(b, src_l, err_l, vbb, bb)
+    entry = False
+    if 1 <= src_l <= b.argc and 1 <= err_l <= b.argc:
+        # the buffer and its error are parameters: the relation is a precondition of this helper and
+        # must be established by every caller at the call site
+        okc, whyc = _callers_establish_utf8(b, src_l, err_l)
+        if not okc:
+            return False, whyc
+        entry = True
+    ok, why = _utf8_valid_flow(b, src_l, err_l, vbb, bb, entry=entry)
     return ok, why
 
 
-def _utf8_valid_flow(b, src_l, err_l, vbb, ubb):
+def _callers_establish_utf8(b, src_l, err_l):
+    facts = b.facts
+    n = 0
+    for p2, cb in facts.bodies.items():
+        for cbb, t in cb.calls():
+            c = callee_of(t)
+            if not c or c['path'] != b.path:
+                continue
+            n += 1
+            if len(t['args']) < max(src_l, err_l):
+                return False, 'caller passes too few arguments'
+            sa, ea = t['args'][src_l - 1], t['args'][err_l - 1]
+            sl = op_local(sa)
+            el = op_local(ea)
+            if sl is None or el is None:
+                return False, 'caller of `%s` does not pass plain locals for buffer/error' % b.path
+            def root_local(l):
+                cur = l
+                for _ in range(10):
+                    d = cb.defs.get(cur, [])
+                    if len(d) == 1 and d[0][2] == 'assign' and d[0][3]['rv']['k'] == 'use':
+                        pl_ = op_place(d[0][3]['rv']['op'])
+                        if pl_ is not None and not pl_['p']:
+                            cur = pl_['l']
+                            continue
+                    break
+                return cur
+            sroot = root_local(sl)
+            eroot = root_local(el)
+            spl = resolve_ref(cb, sl)
+            if spl is not None and all(e['k'] == 'deref' for e in spl['p']):
+                sroot = spl['l']
+            if sroot is None or eroot is None:
+                return False, 'cannot trace the buffer/error passed to `%s`' % b.path
+            okf, whyf = _utf8_valid_flow(cb, sroot, eroot, cbb, cbb, entry=False, at_only=True)
+            if not okf:
+                return False, ('`%s` relies on its error argument describing its buffer argument, but the caller %s '
+                               'does not establish that at %s') % (b.path, cb.path, loc_of(t['sp']))
+    if n == 0:
+        return False, 'helper with from_utf8_unchecked has no caller that establishes its precondition'
+    return True, ''
+
+
+def _utf8_valid_flow(b, src_l, err_l, vbb, ubb, entry=False, at_only=False):
     """forward must-analysis: V = `err` is the Err payload of from_utf8(src) for the current src"""
     # sources: calls from_utf8(&*src)
     from_utf8_res = {}
@@ -351,7 +402,7 @@ def _utf8_valid_flow(b, src_l, err_l, vbb, ubb):
                 st = (False, set())
         return st
 
-    IN = {0: (False, frozenset())}
+    IN = {0: (entry, frozenset())}
     work = [0]
     while work:
         bi = work.pop()
@@ -375,6 +426,13 @@ def _utf8_valid_flow(b, src_l, err_l, vbb, ubb):
             if new != old:
                 IN[s2] = new
                 work.append(s2)
+    if at_only:
+        # state at the *end* of block vbb's statements (the call is its terminator)
+        if vbb not in IN:
+            return False, 'call site unreachable'
+        st = transfer(vbb, (IN[vbb][0], set(IN[vbb][1])))
+        # the error local may be a copy of a payload local still describing src
+        return (bool(st[0]) or err_l in st[1]), ''
     if vbb not in IN or not IN[vbb][0]:
         return False, ('at Utf8Error::valid_up_to() the error value is not known to be the result of from_utf8 on the '
                        'current buffer on every path (the prefix may not be valid UTF-8)')
@@ -516,7 +574,7 @@ def check_from_raw_parts(facts, b, bb, t):
     if a:
         for f in a['variants'][0]['fields']:
             if f['name'] == field:
-                priv = not f['pub']
+                priv = not f.get('reachable', f['pub'])
     res.append((bool(priv), '' if priv else 'the raw-pointer buffer field is public', 'private-field'))
     return res
 
@@ -643,8 +701,7 @@ def run_ab(facts, out, bodies=None):
                     if b.locals[s['pl']['l']]['s'].endswith('<usize>') or 'usize' in b.locals[s['pl']['l']]['s']:
                         _check_size(b, bi, s['rv']['ops'][1], 'range', loc_of(s['sp']), out, only_if_parse=True)
                         n += 1
-    if not fixture:
-        out.anchor('AB', 'allocation / range sites on the decode path', n >= 8, '%d' % n)
+    out.add('AB', facts.crate, 'inventory', 'crate', True, '', {'allocation_sites': n, 'trivial': True}, ordinal=False)
 
 
 def _check_size(b, bb, operand, what, where, out, only_if_parse=False):
@@ -844,8 +901,7 @@ def run_u8(facts, out, bodies=None):
             out.add('U8', b.path, 'write_all', loc_of(t['sp']), not bad,
                     '' if not bad else 'write_all writes bytes that are not valid UTF-8: %r' % bad,
                     {'values': sorted(repr(v) for v in vals)})
-    if not fixture:
-        out.anchor('U8', 'write_all sites in the encoder', n >= 20, '%d' % n)
+    out.add('U8', facts.crate, 'inventory', 'crate', True, '', {'write_all_sites': n, 'trivial': True}, ordinal=False)
 
 
 # ------------------------------------------------------------------ PX
@@ -888,8 +944,7 @@ def run_px(facts, out, paths=None):
             ok, why, how = discharge_panic(facts, b, bb, t, c, is_unwrap)
             out.add('PX', b.path, ('unwrap' if is_unwrap else 'panic') + ':' + c['name'], loc_of(t['sp']), ok, why,
                     {'discharged_by': how} if ok else None)
-    if not fixture:
-        out.anchor('PX', 'explicit panic sites in reachable code', n >= 3, '%d' % n)
+    out.add('PX', facts.crate, 'inventory', 'crate', True, '', {'explicit_panic_sites': n, 'trivial': True}, ordinal=False)
 
 
 def discharge_panic(facts, b, bb, t, c, is_unwrap):
